@@ -74,6 +74,33 @@ theorem no_rule_means_all_failed {p : PassT} {pats : Array (List Nat)} {lab : Na
   obtain ⟨_, _, hm⟩ := fsm_matches_patterns ok gids
   exact pickRule_none p c _ h x ((hm x).mpr ⟨hx, ok.nonempty x hx, hxp⟩)
 
+/-! ### pass constraints (`Pass::testPassConstraint`) -/
+
+/-- a pass whose constraint evaluates false on the first slot of the stream – the machine ending normally – is skipped: the segment and
+the rule context leave `Pass::runGraphite` exactly as they came, whatever rules the pass has and whichever direction it would have run in -/
+theorem failed_pass_constraint_skips_the_pass (p : PassT) (c : Ctx) (fuel s0 : Nat) (hf : c.seg.first = some s0)
+    (h : testPassConstraint p c s0 = .ok (false, .finished)) : runPassDir p c fuel = .ok (some c) := by
+  unfold runPassDir
+  rw [hf]
+  simp only [h]
+  simp
+
+/-- a pass constraint that does not leave the machine in the state `finished` ends the whole run of passes (`Silf::runGraphite` tests
+`m.status()` after every pass): no segment -/
+theorem pass_constraint_that_dies_ends_the_run (p : PassT) (c : Ctx) (fuel s0 : Nat) (ok : Bool) (st : Status) (hf : c.seg.first = some s0)
+    (h : testPassConstraint p c s0 = .ok (ok, st)) (hst : st ≠ .finished) : runPassDir p c fuel = .ok none := by
+  unfold runPassDir
+  rw [hf]
+  simp only [h]
+  simp [hst]
+
+/-- a pass without a constraint always runs -/
+theorem pass_without_constraint_runs (p : PassT) (c : Ctx) (s0 : Nat) (hp : p.pconstraint = []) :
+    testPassConstraint p c s0 = .ok (true, .finished) := by
+  unfold testPassConstraint
+  rw [hp]
+  rfl
+
 /-! ### non-vacuity: a two-rule pass over two columns – rule 0 = "a", rule 1 = "a b" (longer, so it comes first) -/
 def pass2 : PassT :=
   { maxLoop := 5, minPre := 0, maxPre := 0, numColumns := 2, numTransition := 2, numStates := 3, numSuccess := 2,
